@@ -83,6 +83,54 @@ def declared_dims(model, names):
     return {n: int(math.prod(model.dag[n].get_prior_shape(model.dag)) or 1) for n in names}
 
 
+REPAIRS = {}   # what the generator had to repair, counted into the evidence by `cohort()`
+
+
+def valid_cohort(df, kind):
+    """Make a synthetic cohort one that leaspy documents as valid input, deterministically (no new random draw):
+    every individual keeps at least one observed value; a joint cohort has at least one observed event and, when it has two
+    individuals or more, at least one censored one (a single individual: an observed event, the reader refuses a cohort without any)."""
+    df = df.copy()
+    ycols = [c for c in df.columns if c.startswith("Y")]
+    for pid, g in df.groupby("ID", sort=False):
+        if g[ycols].isna().all().all():
+            df.loc[g.index[0], ycols[0]] = 0.5
+            REPAIRS["individual without any observation: first value set to 0.5"] = REPAIRS.get("individual without any observation: first value set to 0.5", 0) + 1
+    if kind == "joint" and "EVENT_BOOL" in df.columns:
+        ids = list(dict.fromkeys(df.ID))
+        ev = df.groupby("ID", sort=False).EVENT_BOOL.first()
+        if ev.max() == 0:
+            df.loc[df.ID == ids[0], "EVENT_BOOL"] = 1
+            REPAIRS["joint cohort without observed event: first individual's event made observed"] = REPAIRS.get("joint cohort without observed event: first individual's event made observed", 0) + 1
+        ev = df.groupby("ID", sort=False).EVENT_BOOL.first()
+        if len(ids) >= 2 and ev.min() == 1:
+            df.loc[df.ID == ids[-1], "EVENT_BOOL"] = 0
+            REPAIRS["joint cohort without censored event: last individual's event made censored"] = REPAIRS.get("joint cohort without censored event: last individual's event made censored", 0) + 1
+    return df
+
+
+def cohort(run: Run, kind="logistic", **kw):
+    """synth.make_df made valid (see valid_cohort); repairs are counted in the evidence."""
+    from harness import synth
+    return valid_cohort(synth.make_df(kind=kind, joint=(kind == "joint"), **kw), kind)
+
+
+def build_dataset(run: Run, df, kind, inp):
+    """Dataset of a harness-made cohort.  A refusal by the data reader is a shortcoming of the generator, not of personalisation:
+    the cohort is skipped and counted (never a failure of the property, never a crash of the search)."""
+    from harness import synth
+    from leaspy.exceptions import LeaspyDataInputError
+    from leaspy.io.data import Dataset
+    try:
+        with quiet(), warnings.catch_warnings():
+            warnings.simplefilter("ignore")
+            return Dataset(synth.make_data(valid_cohort(df, kind), kind), no_warning=True)
+    except LeaspyDataInputError as e:
+        run.count("skipped_cohorts_refused_by_the_data_reader", f"{kind}/{inp.get('cohort')}: {str(e)[:80]}")
+        run.extra["skipped_cohorts"] = run.extra.get("skipped_cohorts", 0) + 1
+        return None
+
+
 def reorder_blocks(df, order):
     import pandas as pd
     return pd.concat([df[df.ID == k] for k in order], ignore_index=True)
@@ -325,8 +373,9 @@ def chain_case(run: Run, model, df, kind, algo, n_iter, nb=None, frac_=None, see
         inp["schedule"] = sched
         inp["annealing"] = dict(ann)
         kw["annealing"] = dict(ann)
-    with quiet():
-        dataset = Dataset(synth.make_data(df, kind), no_warning=True)
+    dataset = build_dataset(run, df, kind, inp)
+    if dataset is None:
+        return None
     rec = McmcRecorder()
     err = None
     ip = None
@@ -659,18 +708,18 @@ def cohorts(kind, thorough, seed):
     from harness import synth
     joint = kind == "joint"
     n_feat = 1 if joint else 3
-    mk = lambda **kw: synth.make_df(n_feat=n_feat, joint=joint, kind=kind, **kw)
+    mk = lambda **kw: valid_cohort(synth.make_df(n_feat=n_feat, joint=joint, kind=kind, **kw), kind)
     out = {}
     out["one-individual"] = mk(n_ind=1, seed=seed + 1)
     d = mk(n_ind=5, seed=seed + 2)
-    out["one-visit-each"] = d.groupby("ID").head(1).reset_index(drop=True)
+    out["one-visit-each"] = valid_cohort(d.groupby("ID").head(1).reset_index(drop=True), kind)
     if not joint:
         out["missing-data"] = mk(n_ind=6, seed=seed + 3, missing=0.35)
     d = mk(n_ind=6, seed=seed + 4)
     ids = sorted(d.ID.unique())
     new = ["10", "9", "007", "1e3", "2.0", "b"]
     d["ID"] = d.ID.map(dict(zip(ids, new)))
-    out["shuffled-numeric-looking-ids"] = reorder_blocks(d, ["9", "b", "10", "1e3", "007", "2.0"])
+    out["shuffled-numeric-looking-ids"] = valid_cohort(reorder_blocks(d, ["9", "b", "10", "1e3", "007", "2.0"]), kind)
     if thorough or kind in ("logistic",):
         out["thirty"] = mk(n_ind=30, seed=seed + 5)
     return out
@@ -685,8 +734,14 @@ def model_variants(run, kind, thorough):
     kw = dict(noise="gaussian-diagonal") if kind == "mixture_logistic" else {}
     n_feat = 1 if kind == "joint" else 3
     try:
-        m, df = synth.fit(kind, n_iter=40, seed=run.seed % 1000, n_ind=14, n_feat=n_feat, **kw)
+        df_fit = cohort(run, kind, n_ind=14, n_feat=n_feat, seed=run.seed % 1000, binary=(kw.get("noise") == "bernoulli"))
+        m, df = synth.fit(kind, n_iter=40, seed=run.seed % 1000, n_ind=14, n_feat=n_feat, df=df_fit, **kw)
     except Exception as e:
+        from leaspy.exceptions import LeaspyDataInputError
+        if isinstance(e, LeaspyDataInputError):
+            run.count("skipped_cohorts_refused_by_the_data_reader", f"{kind}/training cohort: {str(e)[:80]}")
+            run.extra["skipped_cohorts"] = run.extra.get("skipped_cohorts", 0) + 1
+            return []
         run.fail(f"setup:fit-raises:{kind}", f"fit of a {kind} model raised {type(e).__name__}: {e}", dict(kind=kind))
         return []
     fd, p = tempfile.mkstemp(suffix=".json")
@@ -719,6 +774,8 @@ def check_scipy(run: Run, model, kind, tag, cname, df, seed, n_jobs=1, settings=
     inp = dict(kind=kind, model=tag, algo="scipy_minimize", cohort=cname, n_ind=int(df.ID.nunique()), seed=seed)
     if settings != "default":
         inp["settings"] = settings
+    if build_dataset(run, df, kind, inp) is None:
+        return None
     names = ind_names(model)
     dims = declared_dims(model, names)
     rec = ScipyRecorder()
@@ -1055,6 +1112,7 @@ def check(run: Run, gen_ok=True, model_ok=True):
                 "a fresh single-individual state <= objective at the start point. D: the real estimators called on synthetic histories with exact ties. "
                 "Non-trivial = at least two individuals and two kept draws (B), two individuals (C), two variables (A), two draws (D); distinct by canonical tuple.")
     seed = run.seed % 1000
+    REPAIRS.clear()
     # ---- A
     scalings_cases(run, 400 if thorough else 120)
     # ---- B: grid on a small logistic model
@@ -1131,6 +1189,9 @@ def check(run: Run, gen_ok=True, model_ok=True):
     st_c = run_chain_cases(run, acc, gen_ok=gen_ok, model_ok=model_ok, part="_cohorts")
     merge_stats(run, fut_grid.result() if fut_grid is not None else {}, st_c)
     pool.shutdown()
+    for k, v in REPAIRS.items():
+        run.count("generator_repairs", k, v)
+    run.extra.setdefault("skipped_cohorts", 0)
     n = run.extra.get("optimiser_runs", 0)
     run.extra["hypothesis_minimise_monotone_validated_on"] = f"{n} real optimisations of this run (validation of the oracle hypothesis, not a proof)"
 
